@@ -230,7 +230,7 @@ func (w *world) observables() []observable {
 	add([]string{"lm"}, n+"lm/blocks/"+box+"?supervoxels=true&compression=blocks", "blocks", nil)
 	add([]string{"lm"}, n+"lm/blocks/"+box+"?compression=blocks", "blocks", nil)
 	add([]string{"lm"}, n+"lm/raw/0_1_2/"+box+"?compression=lz4", "", nil) // decodes every stored block
-	add([]string{"lm"}, n+"lm/mappings", "lines", nil) // streamed from a map: line order is not promised
+	add([]string{"lm"}, n+"lm/mappings", "lines", nil)                     // streamed from a map: line order is not promised
 	for _, t := range []string{"maxlabel", "listlabels?sizes=true", "extents"} {
 		add([]string{"lm"}, n+"lm/"+t, "", nil)
 	}
